@@ -1718,3 +1718,51 @@ pub fn reorder_query(t: &mut Tape, td: &TableDef) -> Option<Query> {
         offset: None,
     })
 }
+
+/// Deliberately ill-formed (C17 only): a computed output column of a derived table used outside any
+/// aggregate of an aggregating block without being a GROUP BY key. The binder must reject it; a binder
+/// that accepts it plans a projection over an aggregation that does not produce the column.
+pub fn ungrouped_derived_expr_query(t: &mut Tape, td: &TableDef) -> Option<Query> {
+    let c = td.cols.iter().find(|c| c.ty == Ty::Int)?;
+    // (another column: an expression over the group key itself would be a valid statement)
+    let others: Vec<&ColDef> = td.cols.iter().filter(|o| o.name != c.name).collect();
+    if others.is_empty() {
+        return None;
+    }
+    let other = others[t.pick(others.len())];
+    let ia = "t1".to_string();
+    let x0 = E::Bin("+".into(), Box::new(E::Col(ia.clone(), c.name.clone(), Ty::Int)), Box::new(E::Lit(Val::Int(1 + t.pick(3) as i64), Ty::Int)));
+    let inner = Query {
+        distinct: false,
+        select: vec![(x0, Ty::Int), (E::Col(ia.clone(), other.name.clone(), other.ty), other.ty)],
+        from: vec![FromItem { source: Source::Table(td.name.clone()), alias: ia, join: None }],
+        where_: None,
+        group_by: vec![],
+        having: None,
+        order_by: vec![],
+        order_extra: vec![],
+        limit: None,
+        offset: None,
+    };
+    let d = "d1".to_string();
+    let (dx0, dx1) = (E::Col(d.clone(), "x0".into(), Ty::Int), E::Col(d.clone(), "x1".into(), other.ty));
+    let count = E::Agg("count".into(), None, false);
+    let (select, group_by, having) = match t.pick(4) {
+        0 => (vec![(dx0, Ty::Int), (count, Ty::Int)], vec![], None),
+        1 => (vec![(E::Bin("+".into(), Box::new(dx0), Box::new(E::Lit(Val::Int(1), Ty::Int))), Ty::Int), (E::Agg("count".into(), Some(Box::new(dx1)), false), Ty::Int)], vec![], None),
+        2 => (vec![(count, Ty::Int)], vec![dx1], Some(E::Bin(">".into(), Box::new(dx0), Box::new(E::Lit(Val::Int(1), Ty::Int))))),
+        _ => (vec![(dx0, Ty::Int), (count, Ty::Int)], vec![dx1], None),
+    };
+    Some(Query {
+        distinct: false,
+        select,
+        from: vec![FromItem { source: Source::Derived(Box::new(inner)), alias: d, join: None }],
+        where_: None,
+        group_by,
+        having,
+        order_by: vec![],
+        order_extra: vec![],
+        limit: None,
+        offset: None,
+    })
+}
